@@ -74,6 +74,11 @@ func (C08) Rule() string {
 func (C08) Serial() bool { return true } // one global hook log
 
 func (C08) Gen(r *core.Rng, tier string, emit func(string)) {
+	if tier == "thorough" {
+		emit = cliDupSrv(emit, 3, 80)
+	} else {
+		emit = cliDupSrv(emit, 3, 8)
+	}
 	n := 400
 	if tier == "thorough" {
 		n = 8000
@@ -295,6 +300,11 @@ func (C09) Rule() string {
 func (C09) Serial() bool { return true }
 
 func (C09) Gen(r *core.Rng, tier string, emit func(string)) {
+	if tier == "thorough" {
+		emit = cliDupSrv(emit, 3, 60)
+	} else {
+		emit = cliDupSrv(emit, 3, 6)
+	}
 	n := 250
 	if tier == "thorough" {
 		n = 6000
@@ -345,9 +355,11 @@ func (C09) Gen(r *core.Rng, tier string, emit func(string)) {
 		emit(fmt.Sprintf("srvscript %d %s", cacheMB, strings.Join(ops, " ")))
 	}
 }
-func (C09) RunGo(line string) string            { return C08{}.RunGo(line) }
-func (C09) Agree(l, g, m string) bool           { return C08{}.Agree(l, g, m) }
-func (C09) Branch(line, goOut string) string    { return strings.Fields(line)[0] + " " + strings.Fields(line)[1] }
+func (C09) RunGo(line string) string  { return C08{}.RunGo(line) }
+func (C09) Agree(l, g, m string) bool { return C08{}.Agree(l, g, m) }
+func (C09) Branch(line, goOut string) string {
+	return strings.Fields(line)[0] + " " + strings.Fields(line)[1]
+}
 func (C09) NonTrivial(line string) bool {
 	return strings.Count(line, "S:") >= 3 || strings.Count(line, "|req|")+strings.Count(line, "req|") >= 6
 }
@@ -446,6 +458,11 @@ func (C10) Serial() bool { return true }
 var c10Faults = []string{"err", "e404", "e412", "e416", "short", "garbage", "midstream", "empty"}
 
 func (C10) Gen(r *core.Rng, tier string, emit func(string)) {
+	if tier == "thorough" {
+		emit = cliDupSrv(emit, 3, 80)
+	} else {
+		emit = cliDupSrv(emit, 3, 8)
+	}
 	reqs := []string{"/a/1/0/0.mvt", "/a/2/1/1.mvt", "/a/metadata", "/a.json", "/a/1/1/1.mvt"}
 	suffix := func(ver int, paths []string) []string {
 		ops := []string{"A", fmt.Sprintf("P:a:%d", ver)}
@@ -572,8 +589,10 @@ func (C10) RunGo(line string) string {
 	out, _ := runScriptChild(cacheMB, t[2:])
 	return out
 }
-func (C10) Agree(l, g, m string) bool        { return C08{}.Agree(l, g, m) }
-func (C10) Branch(line, goOut string) string { return strings.Fields(line)[0] + " cache=" + strings.Fields(line)[1] }
+func (C10) Agree(l, g, m string) bool { return C08{}.Agree(l, g, m) }
+func (C10) Branch(line, goOut string) string {
+	return strings.Fields(line)[0] + " cache=" + strings.Fields(line)[1]
+}
 func (C10) NonTrivial(line string) bool {
 	for _, f := range c10Faults {
 		if strings.Contains(line, ":"+f) {
